@@ -77,6 +77,8 @@ class C20(core.Check):
                        "utf-8 codec, io text layer and newline translation", "real tmpfs directory", "real subprocesses for calibration"]
     stubbed_components = ["process exit status: in-process SystemExit code -> n & 0xFF (calibrated)"]
 
+    _trace: list = []
+
     def setup(self):
         self.mf = core.import_repo()
         import mappyfile.cli as cli
@@ -187,7 +189,9 @@ class C20(core.Check):
                 code = e.code
             except Exception as e:  # noqa: BLE001  (click usage errors etc.)
                 return {"status": "exception:" + type(e).__name__, "stdout": out.getvalue()}
-        return {"status": exit_status(None if code == "returned" else code), "stdout": out.getvalue()}
+        res = {"status": exit_status(None if code == "returned" else code), "stdout": out.getvalue()}
+        self._trace.append([args[0], res["status"], len(res["stdout"].splitlines())])
+        return res
 
     def run_cli_subprocess(self, args, cwd):
         code = f"import sys; sys.path.insert(0, {core.REPO!r}); from mappyfile.cli import main; main()"
@@ -207,6 +211,7 @@ class C20(core.Check):
             return {"invariant": inv, "kind": op["op"], "sig": dict(sig, op=op["op"]), "detail": detail}
 
         tmp = tempfile.mkdtemp(prefix="verif-c20-", dir=core.TMPBASE)
+        self._trace = []
         violation = None
         nontrivial = False
         steps = 0
@@ -240,7 +245,7 @@ class C20(core.Check):
         finally:
             shutil.rmtree(tmp, ignore_errors=True)
         ops_d = json.dumps(case["ops"], sort_keys=True)
-        return {"violation": violation, "digest": core.digest(ops_d), "nontrivial": nontrivial, "stats": stats, "steps": steps}
+        return {"violation": violation, "digest": core.digest([ops_d, self._trace, sorted(stats.items())]), "nontrivial": nontrivial, "stats": stats, "steps": steps}
 
     def op_loaders(self, op, d, viol, bump):
         mf = self.mf
